@@ -547,3 +547,35 @@ LEMMAS['C02/mincost-bound'] = _cost_bound(
     {'v': 'nu(m.pairs[i][c].lp_var)', 'rs': 'm.pairs[i][c].rank_student', 'rl': 'm.pairs[i][c].rank_lecturer', 'sm': 'sm', 'lm': 'lm', 'nP': 'm.num_projects', 'nS': 'm.num_students',
      'h': "has(m.pairs[i][c], 'rank_lecturer')"},
     'm.num_students * m.num_projects * sm + m.num_students * m.num_students * lm', extra_hyps=[_RB_M])
+
+
+# ---- C10 -> C05: ranks that start at 1 and grow by 0 or 1 per entry are non-decreasing along the list, which is the `rows_sorted`
+#      precondition of stability_constraints (the while-loop prefix of a row is then a rank filter)
+LEMMAS['C10/dense-ranks-sorted'] = dict(
+    vars={'r': ('list', 'int'), 'n': 'int', 'a': 'int'},
+    hyps=['0 <= a', 'a <= n', 'n == len(r)', 'forall(j, 0, n - 1, r[j + 1] == r[j] or r[j + 1] == r[j] + 1)'],
+    induct=('m', 'a', 'n', 'implies(a < n and m < n, r[a] <= r[m])'))
+LEMMAS['C10/reader-rows-sorted'] = dict(
+    vars={'m': ('obj', 'Model'), 'io': ('dict', 'Instance_options', {'NUMAGENTS': 'int', 'TWOPL': 'bool', 'PC': 'bool'})},
+    hyps=[('ensures', 'fileIO:_import_from_file', {'result': 'm', 'instance_options': 'io'}, None, ['one-row-per-student', 'rows-in-list-order-with-the-written-numbers-and-dense-tie-ranks'])],
+    uses=[('C10/dense-ranks-sorted', {'r': 'lam(c, len(m.pairs[i]), m.pairs[i][c].rank_student)', 'n': 'len(m.pairs[i])', 'a': 'a'}, 'forall:i,a')],
+    defs={'RR': (['i'], 'lam(c, len(m.pairs[i]), m.pairs[i][c].rank_student)')},
+    goals=[('ranks-entry-by-entry', 'forall(i, 0, len(m.pairs), forall(c, 0, len(m.pairs[i]), RR(i)[c] == m.pairs[i][c].rank_student))', 'then-assume'),
+           ('rank-steps-are-0-or-1', 'forall(i, 0, len(m.pairs), forall(j, 0, len(m.pairs[i]) - 1, RR(i)[j + 1] == RR(i)[j] or RR(i)[j + 1] == RR(i)[j] + 1))', 'then-assume'),
+           ('sorted-in-array-form', 'forall(i, 0, len(m.pairs), forall(a, 0, len(m.pairs[i]), forall(b, a, len(m.pairs[i]), RR(i)[a] <= RR(i)[b])))', 'then-assume'),
+           ('rows-list-projects-in-non-decreasing-rank-order', 'rows_sorted(m)')])
+# ... and never exceed the position: rank of entry m is at most m + 1, hence at most the length of the list
+LEMMAS['C10/dense-ranks-bounded'] = dict(
+    vars={'r': ('list', 'int'), 'n': 'int'},
+    hyps=['n == len(r)', 'implies(n > 0, r[0] == 1)', 'forall(j, 0, n - 1, r[j + 1] == r[j] or r[j + 1] == r[j] + 1)'],
+    induct=('m', '0', 'n', 'implies(m < n, r[m] <= m + 1)'))
+LEMMAS['C10/reader-student-ranks-bounded'] = dict(
+    vars={'m': ('obj', 'Model'), 'io': ('dict', 'Instance_options', {'NUMAGENTS': 'int', 'TWOPL': 'bool', 'PC': 'bool'})},
+    hyps=[('ensures', 'fileIO:_import_from_file', {'result': 'm', 'instance_options': 'io'}, None, ['counts-from-the-header', 'one-row-per-student', 'rows-in-list-order-with-the-written-numbers-and-dense-tie-ranks']),
+          ('a-student-ranks-at-most-all-projects', 'forall(i, 0, len(m.pairs), len(m.pairs[i]) <= m.num_projects)')],
+    uses=[('C10/dense-ranks-bounded', {'r': 'lam(c, len(m.pairs[i]), m.pairs[i][c].rank_student)', 'n': 'len(m.pairs[i])'}, 'forall:i')],
+    defs={'RR': (['i'], 'lam(c, len(m.pairs[i]), m.pairs[i][c].rank_student)')},
+    goals=[('ranks-entry-by-entry', 'forall(i, 0, len(m.pairs), forall(c, 0, len(m.pairs[i]), RR(i)[c] == m.pairs[i][c].rank_student))', 'then-assume'),
+           ('first-rank-and-steps', 'forall(i, 0, len(m.pairs), implies(len(m.pairs[i]) > 0, RR(i)[0] == 1) and forall(j, 0, len(m.pairs[i]) - 1, RR(i)[j + 1] == RR(i)[j] or RR(i)[j + 1] == RR(i)[j] + 1))', 'then-assume'),
+           ('rank-at-most-position-plus-one', 'forall(i, 0, len(m.pairs), forall(c, 0, len(m.pairs[i]), RR(i)[c] <= c + 1))', 'then-assume'),
+           ('student-ranks-bounded-by-the-number-of-projects', 'forall(i, 0, len(m.pairs), forall(c, 0, len(m.pairs[i]), m.pairs[i][c].rank_student <= m.num_projects))')])
